@@ -2314,7 +2314,6 @@ func (ev *Evaluator) Method(prog *ssa.Program, recv any, name string, args ...an
 	return nil, notEval("no method %s on %s", name, ifc.T)
 }
 
-
 // evalSorter sorts the locations of an evaluated slice: the values move, the locations stay (as in Go, where a
 // sort swaps elements of the backing array).
 type evalSorter struct {
@@ -2325,7 +2324,6 @@ type evalSorter struct {
 func (s *evalSorter) Len() int           { return len(s.l) }
 func (s *evalSorter) Less(i, j int) bool { return s.less(i, j) }
 func (s *evalSorter) Swap(i, j int)      { s.l[i].V, s.l[j].V = s.l[j].V, s.l[i].V }
-
 
 // readerMethod answers the io.Reader / io.Seeker / io.ByteReader / io.ReaderAt methods of a reader over known bytes.
 func readerMethod(r *EBytesReader, method string, args []any) (any, *EvalError, bool) {
@@ -2407,7 +2405,6 @@ type EScanner struct {
 	Tok   []byte
 	Done  bool
 }
-
 
 func bytesOfVal(v any) ([]byte, bool) {
 	sl, ok := v.(*ESlice)
